@@ -284,6 +284,7 @@ func checkC14(c *Ctx) {
 	c.Rule("R4", "who may send: callers of client.Send / MakeRequestToHost / MakeRequest are the allowed roles; the unknown-command and invalid-request arms never call a handler")
 	c.Rule("R5", "host choice: a return that can yield a replica address is dominated by IsReadOnly()==true and by a strategy test that permits replicas; the non-read-only branch returns the slot entry's own address")
 	c.Rule("R6", "replicas are attached only to the master named by their own master id; slot entries only from master lines")
+	c.Rule("R7", "the command that was validated is the command that is forwarded: no alias of the read buffer escapes into a request (shared with C10.R2)")
 
 	send := p.Func(redisPkg, "(*client).Send")
 	mrth := p.Func(redisPkg, "(*upstream).MakeRequestToHost")
@@ -515,6 +516,7 @@ func checkC14(c *Ctx) {
 	checkChooseHost(c)
 	// ---------------- R6
 	checkReplicaAttach(c, "R6")
+	checkReadBufferAlias(c, "R7")
 	checkSlotFill(c, "R6")
 	c.Expect("R6", 3)
 }
@@ -840,6 +842,64 @@ func checkChooseHost(c *Ctx) {
 		if iroCall == nil {
 			c.Fail("R5", fnKey(fn)+" readonly-test", fn.Pos(), "host-choosing function never consults IsReadOnly()")
 		}
+		// owner or fallback: a returned address comes from the slot entry, unless the entry is nil
+		fromEntry := func(v ssa.Value) bool {
+			return derivesIP(v, func(y ssa.Value) bool {
+				f, base := fieldAddr(y)
+				if f == nil {
+					f, base = loadedField(y)
+				}
+				if f != addrF && f != replF {
+					return false
+				}
+				return derives(base, func(z ssa.Value) bool {
+					if ia, isIA := z.(*ssa.IndexAddr); isIA {
+						sf, _ := fieldAddr(ia.X)
+						return sf == slotsF
+					}
+					return false
+				})
+			}, 2)
+		}
+		var nilCmps []*ssa.BinOp
+		eachInstr(fn, func(_ *ssa.BasicBlock, _ int, in ssa.Instruction) {
+			bo, ok := in.(*ssa.BinOp)
+			if !ok || (bo.Op != token.EQL && bo.Op != token.NEQ) || !isNilConst(bo.Y) {
+				return
+			}
+			if u, isU := bo.X.(*ssa.UnOp); isU {
+				if ia, isIA := u.X.(*ssa.IndexAddr); isIA {
+					if sf, _ := fieldAddr(ia.X); sf == slotsF {
+						nilCmps = append(nilCmps, bo)
+					}
+				}
+			}
+		})
+		nr := 0
+		eachInstr(fn, func(b *ssa.BasicBlock, _ int, in ssa.Instruction) {
+			ret, ok := in.(*ssa.Return)
+			if !ok || len(ret.Results) == 0 {
+				return
+			}
+			nr++
+			site := fmt.Sprintf("%s return#%d owner-or-fallback", fnKey(fn), nr)
+			v := ret.Results[0]
+			if _, isC := v.(*ssa.Const); isC {
+				c.OK("R5", site, ret.Pos(), "constant (error path)")
+				return
+			}
+			if fromEntry(v) {
+				c.OK("R5", site, ret.Pos(), "address taken from the slot entry")
+				return
+			}
+			under := false
+			for _, bo := range nilCmps {
+				if condEdge(b, bo, bo.Op == token.EQL) {
+					under = true
+				}
+			}
+			c.Check(under, "R5", site, ret.Pos(), "fallback taken only when the slot has no entry", "a host is returned that is not taken from the slot entry of the key although the routing table may have an owner for it: the command is sent to a node that does not own the key (MOVED round trip at best; for a write, not the master of the slot)")
+		})
 		// strategy gate: every path from entry to a Replicas access crosses the true edge of (strategy == REPLICA|BOTH);
 		// the access may live in the chooser or in a helper it calls
 		nacc := 0
@@ -943,24 +1003,45 @@ func checkChooseHost(c *Ctx) {
 			c.Note("host chooser %s reads no replica list (all traffic to masters)", fnKey(fn))
 		}
 	}
-	// who else reads instance.Replicas for routing: any function outside the choosers and the parser
-	for _, a := range p.fieldAccesses(replF) {
-		top := topFn(a.Fn)
-		isChooser := false
-		for _, f := range choosers {
-			if f == top {
-				isChooser = true
+	// who else reads instance.Replicas: outside the choosers (and their helpers) replica addresses must not be copied
+	// into another structure - there the per-request strategy test no longer governs them
+	inCone := map[*ssa.Function]bool{}
+	for _, f := range choosers {
+		inCone[f] = true
+		for _, g := range staticCalleesDeep(f, 2) {
+			inCone[g] = true
+		}
+	}
+	isReplV := func(v ssa.Value) bool {
+		f, _ := fieldAddr(v)
+		if f == replF {
+			return true
+		}
+		f, _ = loadedField(v)
+		return f == replF
+	}
+	for _, fn := range p.FuncsIn(redisPkg) {
+		if p.isTestFn(fn) || inCone[topFn(fn)] || inCone[fn] {
+			continue
+		}
+		eachInstr(fn, func(_ *ssa.BasicBlock, _ int, in ssa.Instruction) {
+			var val ssa.Value
+			var tf *types.Var
+			switch x := in.(type) {
+			case *ssa.Store:
+				tf, _ = fieldAddr(x.Addr)
+				val = x.Val
+			case *ssa.MapUpdate:
+				tf, _ = loadedField(x.Map)
+				val = x.Value
 			}
-		}
-		if isChooser || a.Write || strings.HasPrefix(top.Name(), "parseClusterNodes") {
-			continue
-		}
-		if _, isFA := a.In.(*ssa.FieldAddr); isFA {
-			continue
-		}
-		if p.reachable([]*ssa.Function{top}, nil)[p.Func(redisPkg, "(*client).Send")] {
-			c.Fail("R5", "replicas read outside the host chooser: "+fnKey(top), a.In.Pos(), "another function that can reach the backend send path reads instance.Replicas")
-		}
+			if tf == nil || tf == replF || val == nil {
+				return
+			}
+			if derivesIP(val, isReplV, 2) {
+				c.Fail("R5", "replica addresses copied out of the routing entry in "+fnKey(fn), in.Pos(), "values derived from instance.Replicas are stored into field "+tf.Name()+" outside the host chooser: whatever reads that copy later is not governed by the per-request read-strategy test (a strategy change to MASTER keeps sending reads to replicas until the copy is rebuilt)")
+			}
+		})
 	}
 	c.Expect("R5", 4)
 }
